@@ -103,6 +103,8 @@ impl Allocator {
             return Err(self.del_err(e));
         }
 
+        #[cfg(feature = "verif-hooks")]
+        crate::verif::yield_point(crate::verif::point::KILL_AFTER_CHECK);
         self.killed.add_atomic(e.id());
 
         Ok(())
@@ -153,7 +155,11 @@ impl Allocator {
             atomic_increment(&self.max_id).expect("No entity left to allocate") as Index
         });
 
+        #[cfg(feature = "verif-hooks")]
+        crate::verif::yield_point(crate::verif::point::ALLOC_AFTER_INDEX);
         self.raised.add_atomic(id);
+        #[cfg(feature = "verif-hooks")]
+        crate::verif::yield_point(crate::verif::point::ALLOC_AFTER_RAISE);
         let gen = self
             .generation(id)
             .map(|gen| if gen.is_alive() { gen } else { gen.raised() })
@@ -568,6 +574,8 @@ fn atomic_increment(i: &AtomicUsize) -> Option<usize> {
     use std::usize;
     let mut prev = i.load(Ordering::Relaxed);
     while prev != usize::MAX {
+        #[cfg(feature = "verif-hooks")]
+        crate::verif::yield_point(crate::verif::point::INC_BEFORE_CAS);
         match i.compare_exchange_weak(prev, prev + 1, Ordering::Relaxed, Ordering::Relaxed) {
             Ok(x) => return Some(x),
             Err(next_prev) => prev = next_prev,
@@ -582,6 +590,8 @@ fn atomic_increment(i: &AtomicUsize) -> Option<usize> {
 fn atomic_decrement(i: &AtomicUsize) -> Option<usize> {
     let mut prev = i.load(Ordering::Relaxed);
     while prev != 0 {
+        #[cfg(feature = "verif-hooks")]
+        crate::verif::yield_point(crate::verif::point::DEC_BEFORE_CAS);
         match i.compare_exchange_weak(prev, prev - 1, Ordering::Relaxed, Ordering::Relaxed) {
             Ok(x) => return Some(x),
             Err(next_prev) => prev = next_prev,
